@@ -1,5 +1,6 @@
 import FastgoModel.Proofs.DistTable
 import FastgoModel.Gen.Facts
+import FastgoModel.Proofs.TokenCheck
 /-!
 # C19 — the 4 KiB-window writer never refers back more than 4096 bytes
 
@@ -19,8 +20,14 @@ The chain from constructor to emitted distance, each link tied to the code:
   emits for a distance 1..32768 is decoded by RFC 1951 to that same distance.
   Hence every distance a conforming inflater reconstructs from a Go-matched token is ≤ the window.
 
-The assembly match finders (acceleration level ≥ 1) sit behind the same contract as an ASSUMPTION validated on
-every run: the reference inflater reports the maximum distance of every output (window-edge families: repeats at
+* `C19_checked_call` (theorem): a match-finder call that passes the executable check `Writer.checkGen` (run by
+  the `G` correspondence on recorded calls of the Go AND the assembly match finders, at every acceleration level
+  the host can execute, with the constructor's window) emitted only matches with `1 ≤ dist ≤ window`,
+  `3 ≤ len ≤ 258`, whose bytes are in the buffer it was given — so the window bound is checked at the source,
+  call by call, not only through the decoded output.
+
+The assembly match finders (acceleration level ≥ 1) have no Lean model: beyond `C19_checked_call` on the recorded
+calls they sit behind the same contract as an ASSUMPTION validated on every run: the reference inflater reports the maximum distance of every output (window-edge families: repeats at
 W-2..W+2, 64 KiB aliasing, Flush/Reset histories) at every level the host can execute.
 -/
 namespace Fastgo.Props
@@ -50,6 +57,12 @@ theorem C19_reject_outside (dist W : Nat) (hd : dist < 65536) (hW : 0 < W) (hW2 
       have : dist + 2 ^ 32 - 1 = (dist - 1) + 2 ^ 32 := by omega
       rw [this, Nat.add_mod_right, Nat.mod_eq_of_lt (by omega)]
     omega
+
+theorem C19_checked_call (window : Nat) (buf : Array UInt8) (stop : Nat) (hs : stop ≤ buf.size)
+    (toks : List Fastgo.Writer.RTok) (pos : Nat) (h : Fastgo.Writer.checkGen window buf stop pos toks = true) :
+    ∀ t ∈ toks, t.inWindow window :=
+  (Fastgo.Writer.checkGen_sound window buf stop hs toks pos (buf.extract 0 pos)
+    (by simp [Array.toList_extract]) h).2.2
 
 theorem C19_emitted_distance (d : Nat) (h1 : 1 ≤ d) (h2 : d ≤ 32768) :
     (getDistSymbol d).1 < 30 ∧ distBase.getD (getDistSymbol d).1 0 + (getDistSymbol d).2 = d ∧
@@ -98,3 +111,4 @@ end Fastgo.Props
 #print axioms Fastgo.Props.C19_window
 #print axioms Fastgo.Props.C19_code_shape
 #print axioms Fastgo.Props.C19_constructor_windows
+#print axioms Fastgo.Props.C19_checked_call
